@@ -101,6 +101,8 @@ def check_sequence(c):
             if not close(st.logZ, ref["logZ_rect"][k], ztol(st.logZ)):
                 probs.append(("inc.logZ_rect", k, float(st.logZ), float(ref["logZ_rect"][k])))
                 break
+        if probs:
+            return probs, events
         lv = np.array(st.log_vols)
         if len(lv) != N + 1 or len(st.logLs) != N + 1:
             probs.append(("lengths", len(lv), len(st.logLs)))
